@@ -4,6 +4,7 @@ enumerated small inputs by pyvc/libcheck.py on every run (not proved).
 """
 import math
 import z3
+from .core import _pat_ok_core
 from .core import (I, R, B, C, Ctx, SArr, SInt, SReal, SBool, SNan, Unsupported, Obligation, lift, wrap, concrete,
                    to_real, coerce2, ZERO, SORT, kind_of_sort, _eq, _asb, SpecMode, upow, _buf_ids, _c_or_s, _tobool)
 
@@ -676,12 +677,45 @@ def concatenate(arrs, axis=0):
     return r
 
 
+def _hstack_var(arrs, kind):
+    """ASSUMED np.hstack of a list (symbolic length n) of 1-d pieces of symbolic lengths LEN(j): the pieces laid end to end.
+    OFF(0) = 0, OFF(j+1) = OFF(j) + LEN(j), total length OFF(n); entry OFF(j) + q is entry q of piece j; every entry p belongs to
+    exactly one piece PJ(p) at position PQ(p) = p - OFF(PJ(p))."""
+    c = C()
+    n = arrs.n
+    R_ = c.fresh_fun('hstacked', I, SORT[kind])
+    OFF = c.fresh_fun('hsoff', I, I)
+    PJ = c.fresh_fun('hspiece', I, I)
+    j, q, p = _qv(3)
+
+    def piece(je):
+        with SpecMode():
+            return arrs.at(SInt(je))
+    pj = piece(j)
+    ln = pj.shape_e[0]
+    tot = OFF(n)
+    c.assume(z3.And(OFF(0) == 0, tot >= 0), feas=False)
+    c.assume(z3.ForAll([j], z3.Implies(z3.And(0 <= j, j < n), z3.And(ln >= 0, OFF(j + 1) == OFF(j) + ln)), patterns=[OFF(j + 1)]), feas=False)
+    el = pj.elem(q)
+    at = R_(OFF(j) + q)
+    c.assume(z3.ForAll([j, q], z3.Implies(z3.And(0 <= j, j < n, 0 <= q, q < ln), z3.And(0 <= OFF(j) + q, OFF(j) + q < tot, at == el, PJ(OFF(j) + q) == j)),
+                       patterns=[el] if _pat_ok_core(el, [j, q]) else []), feas=False)
+    pp = piece(PJ(p))
+    c.assume(z3.ForAll([p], z3.Implies(z3.And(0 <= p, p < tot), z3.And(0 <= PJ(p), PJ(p) < n, OFF(PJ(p)) <= p, p - OFF(PJ(p)) < pp.shape_e[0],
+                                                                       R_(p) == pp.elem(p - OFF(PJ(p))))), patterns=[R_(p)]), feas=False)
+    r = SArr((tot,), lambda i_: R_(i_), kind)
+    r.hstack_of = (arrs, OFF, PJ)
+    return r
+
+
 def hstack(arrs):
     from .core import SymList
     if isinstance(arrs, SymList):
         # np.hstack over a comprehension of symbolic length: supported when every piece is a 1-d array of exactly one element
         with SpecMode():
             probe = arrs.at(SInt(z3.Int('hs_probe')))
+        if isinstance(probe, SArr) and probe.ndim == 1 and probe.nan is None and concrete(probe.shape_e[0]) != 1 and not Ctx.spec and not Ctx.closure_depth:
+            return _hstack_var(arrs, probe.kind)
         if not (isinstance(probe, SArr) and probe.ndim == 1 and concrete(probe.shape_e[0]) == 1):
             raise Unsupported('hstack over a symbolic-length list of variable-length pieces')
         def el(j):
@@ -783,7 +817,7 @@ def broadcast_to(a, shape):
 
     def six(ix):
         return [z3.IntVal(0) if mm == 0 else i for mm, i in zip(m, ix) if mm is not None]
-    return SArr(shape, lambda *ix: a.elem(*six(ix)), a.kind, nan=None if a.nan is None else (lambda *ix: a.nan(*six(ix))))
+    return SArr(shape, lambda *ix: a.elem(*six(ix)), a.kind, nan=None if a.nan is None else (lambda *ix: a.nan(*six(ix))), buf=a.buf, view_of=a)
 
 
 def tile(a, reps):
@@ -804,7 +838,7 @@ def repeat(a, n, axis=None):
 
 def flipud(a):
     n = a.shape_e[0]
-    return SArr(a.shape_e, lambda i, *r: a.elem(n - 1 - i, *r), a.kind)
+    return SArr(a.shape_e, lambda i, *r: a.elem(n - 1 - i, *r), a.kind, buf=a.buf, view_of=a)
 
 
 # ---------------------------------------------------------------------------- reductions
@@ -1012,6 +1046,8 @@ def sum_(a, axis=None):
                 acc = v if acc is None else acc + v
             return acc if acc is not None else ZERO[rk]
         return SArr(rest, elem, rk)
+    if a.ndim == 2 and axis == 1 and a.kind == 'b' and Ctx.cur is not None and not Ctx.spec and not Ctx.closure_depth:
+        return _rowcount(a)
     if a.ndim == 2 and axis == 1:
         return SArr((a.shape_e[0],), lambda i: _sum1(lambda j: a.elem(i, j), a.shape_e[1], a.kind), rk)
     if a.ndim == 2 and axis == 0:
@@ -1019,6 +1055,20 @@ def sum_(a, axis=None):
     if a.ndim == 2 and axis is None:
         return wrap(_sum1(lambda i: _sum1(lambda j: a.elem(i, j), a.shape_e[1], a.kind), a.shape_e[0], rk))
     raise Unsupported('sum pattern ndim=%d axis=%r' % (a.ndim, axis))
+
+
+def _rowcount(a):
+    """ASSUMED np.sum(mask, axis=1) of a 2-d boolean array with a symbolic number of columns: the per-row count of True entries -
+    between 0 and the number of columns, positive exactly when the row has a True entry (witness column WT(i))"""
+    c = C()
+    CNT = c.fresh_fun('rowcount', I, I)
+    WT = c.fresh_fun('rowwit', I, I)
+    i, t = _qv(2)
+    n0, n1 = a.shape_e
+    c.assume(z3.ForAll([i], z3.Implies(z3.And(0 <= i, i < n0), z3.And(0 <= CNT(i), CNT(i) <= z3.If(n1 >= 0, n1, 0),
+                                                                        z3.Implies(CNT(i) > 0, z3.And(0 <= WT(i), WT(i) < n1, a.elem(i, WT(i)))))), patterns=[CNT(i)]), feas=False)
+    c.assume(z3.ForAll([i, t], z3.Implies(z3.And(0 <= i, i < n0, 0 <= t, t < n1, a.elem(i, t)), CNT(i) > 0)), feas=False)
+    return SArr((n0,), lambda i_: CNT(i_), 'i')
 
 
 def nansum(a, axis=None):
@@ -1127,6 +1177,7 @@ def _pat_ok(e, ix):
 
 import builtins as _bi
 builtins_all = _bi.all
+builtins_any = _bi.any
 
 _EXPORTS = {}
 
@@ -1300,8 +1351,107 @@ def argmax(a, axis=None):
     return SArr((a.shape_e[0],), lambda q: Wf(q), 'i')
 
 
+def _free_consts(e, out, seen):
+    if e.get_id() in seen:
+        return
+    seen.add(e.get_id())
+    if z3.is_const(e) and e.decl().kind() == z3.Z3_OP_UNINTERPRETED:
+        out.append(e)
+    for ch in e.children():
+        _free_consts(ch, out, seen)
+
+
+def _contains(e, t, memo):
+    k = e.get_id()
+    if k not in memo:
+        memo[k] = z3.eq(e, t) or builtins_any(_contains(ch, t, memo) for ch in e.children())
+    return memo[k]
+
+
+def _params_of(e, t, out, memo):
+    """the maximal subterms of e that do not mention t (numerals excluded), in order of first occurrence"""
+    if not _contains(e, t, memo):
+        if not (z3.is_int_value(e) or z3.is_rational_value(e) or z3.is_true(e) or z3.is_false(e)):
+            if not builtins_any(z3.eq(e, o) for o in out):
+                out.append(e)
+        return
+    for ch in e.children():
+        _params_of(ch, t, out, memo)
+
+
 def argmin(a, axis=None):
-    raise Unsupported('np.argmin')
+    """ASSUMED np.argmin of a non-empty 1-d array without NaN: an index in range that holds a minimum.
+    The result is a function of the array.  The array's element term e(t) has a shape (its function symbols around the position t) and
+    parameters (its maximal subterms that do not mention t: loop index, comprehension index, ...); its length n is a term over those
+    parameters and possibly further symbols.  The index is the Skolem function  argmin_<shape>(parameters) - the same function whenever
+    the same expression is evaluated at other parameter values (needed inside symbolic comprehensions, where the element expression is
+    instantiated at several indices)."""
+    a = _arr(a)
+    if a.ndim != 1 or axis not in (None, 0, -1):
+        raise Unsupported('argmin pattern')
+    if a.nan is not None:
+        raise Unsupported('argmin over possibly-NaN array')
+    c = C()
+    n = z3.simplify(a.shape_e[0])
+    if not Ctx.spec:
+        c.oblige('argmin-of-nonempty', n > 0, 'safety')
+    t = z3.Int('argmin_canon')
+    e = z3.simplify(a.elem(t))
+    params = []
+    _params_of(e, t, params, {})
+    ph = [(k, z3.Const('argmin_ph%d' % i, k.sort())) for i, k in enumerate(params)]
+    n1 = z3.substitute(n, *ph) if ph else n
+    extra, seen = [], set()
+    _free_consts(n1, extra, seen)
+    extra = [k for k in extra if not builtins_any(z3.eq(k, p_) for _, p_ in ph)]
+    ph2 = [(k, z3.Const('argmin_ph%d' % (len(ph) + i), k.sort())) for i, k in enumerate(extra)]
+    params = params + extra
+    ph = ph + ph2
+    e_s = z3.substitute(e, *ph) if ph else e
+    n_s = z3.substitute(n1, *ph2) if ph2 else n1
+    import hashlib
+    tag = hashlib.sha1((e_s.sexpr() + '|' + n_s.sexpr() + '|' + ','.join(str(k.sort()) for k in params)).encode()).hexdigest()[:10]
+    tab = c.ghost.setdefault('argmin_funs', {})
+    if tag not in tab:
+        AM = z3.Function('argmin_%s' % tag, *([k.sort() for k in params] + [I]))
+        qs = [z3.Const('amq%d_%s' % (i, tag), k.sort()) for i, k in enumerate(params)]
+        sub = [(p_, q) for (_, p_), q in zip(ph, qs)]
+        w = AM(*qs)
+        nq = z3.substitute(n_s, *sub) if sub else n_s
+        eq = z3.substitute(e_s, *sub) if sub else e_s
+        tt = z3.Int('amt_%s' % tag)
+        eq_w, eq_t = z3.substitute(eq, (t, w)), z3.substitute(eq, (t, tt))
+        f1 = z3.Implies(nq > 0, z3.And(0 <= w, w < nq))
+        f2 = z3.Implies(z3.And(0 <= tt, tt < nq), eq_w <= eq_t)
+        facts = [z3.ForAll(qs, f1, patterns=[w]) if qs else f1,
+                 z3.ForAll(qs + [tt], f2, patterns=[z3.MultiPattern(w, eq_t)] if (qs and _pat_ok_core(eq_t, qs + [tt])) else [])]
+        tab[tag] = (AM, facts)
+    AM, facts = tab[tag]
+    for f in facts:            # (re-)assume: a fact assumed inside a scoped block is dropped when the block ends
+        if not builtins_any(f is h for h in c.pc):
+            c.assume(f, feas=False)
+    return wrap(AM(*params))
+
+
+def unwrap(p):
+    """ASSUMED np.unwrap of a 1-d float array without NaN (period 2 pi): out[0] = p[0]; out[k] = p[k] + 2 pi m[k] with integer m[k];
+    consecutive outputs differ by at most pi; an input whose consecutive steps are all smaller than pi is returned unchanged"""
+    p = _arr(p)
+    if p.ndim != 1 or p.nan is not None or Ctx.closure_depth:
+        raise Unsupported('unwrap pattern')
+    c = C()
+    n = p.shape_e[0]
+    U = c.fresh_fun('unwrapped', I, R)
+    M = c.fresh_fun('unwrapm', I, I)
+    k, k2 = _qv(2)
+    pe, _ = p._snapshot()
+    pe_k = to_real(pe(k))
+    c.assume(z3.Implies(n > 0, z3.And(U(0) == to_real(pe(z3.IntVal(0))), M(0) == 0)), feas=False)
+    c.assume(z3.ForAll([k], z3.Implies(z3.And(0 <= k, k < n), U(k) == pe_k + 2 * PI * z3.ToReal(M(k))), patterns=[U(k)]), feas=False)
+    c.assume(z3.ForAll([k], z3.Implies(z3.And(1 <= k, k < n), z3.And(U(k) - U(k - 1) <= PI, U(k - 1) - U(k) <= PI)), patterns=[U(k)]), feas=False)
+    small = z3.ForAll([k2], z3.Implies(z3.And(1 <= k2, k2 < n), z3.And(to_real(pe(k2)) - to_real(pe(k2 - 1)) < PI, to_real(pe(k2 - 1)) - to_real(pe(k2)) < PI)))
+    c.assume(z3.Implies(small, z3.ForAll([k], z3.Implies(z3.And(0 <= k, k < n), M(k) == 0), patterns=[M(k)])), feas=False)
+    return SArr((n,), lambda i: U(i), 'f')
 
 
 def isscalar(x):
